@@ -1546,17 +1546,24 @@ class Parameter(_ParameterBase):
         item in a list).
         """
         name = self.name
+        # Changes to the links of this parameter are deferred until the
+        # value has been accepted, so that a rejected assignment leaves
+        # the existing link in place.
+        relink = None
         if obj is not None and self.allow_refs and obj._param__private.initialized:
             syncing = name in obj._param__private.syncing
             ref, deps, val, is_async = obj.param._resolve_ref(self, val)
             refs = obj._param__private.refs
             if ref is not None:
-                self.owner.param._update_ref(name, ref)
+                relink = partial(self.owner.param._update_ref, name, ref)
             elif name in refs and not syncing:
-                del refs[name]
-                if name in obj._param__private.async_refs:
-                    obj._param__private.async_refs.pop(name).cancel()
+                def relink():
+                    del refs[name]
+                    if name in obj._param__private.async_refs:
+                        obj._param__private.async_refs.pop(name).cancel()
             if is_async or val is Undefined:
+                if relink is not None:
+                    relink()
                 return
 
         # Deprecated Number set_hook called here to avoid duplicating setter
@@ -1599,6 +1606,8 @@ class Parameter(_ParameterBase):
                     )
                 _old = obj._param__private.values.get(name, self.default)
                 obj._param__private.values[name] = val
+        if relink is not None:
+            relink()
         self._post_setter(obj, val)
 
         if obj is not None:
